@@ -415,7 +415,7 @@ def run(tier):
     v.add_mc(g1)
     progs = g1.json_prints()
     g2 = tlc.run("C19", "BdProgGen", "BdProgGen.cfg", env={"GEN_MAXDEFS": 4, "GEN_MAXSTMTS": 3, "GEN_MAXSECS": 3}, workers=1, deadlock=False,
-                 simulate=f"num={300 if tier == 'quick' else 6000}", depth=14, heap="8g")
+                 simulate=f"num={300 if tier == 'quick' else 2500}", depth=14, heap="8g", timeout=2400)
     progs2 = g2.json_prints()
     if len(progs) < 300 or len(progs2) < 100:
         raise Machinery(f"program GEN emitted {len(progs)} + {len(progs2)} programs\n{g2.out[-1500:]}")
